@@ -107,8 +107,18 @@ func VerifC11_Converges() {
 
 	steps := verifrt.Bound("history", 3, 4)
 	for s := 0; s < steps; s++ {
-		switch verifrt.Choice("event", 0, 5) {
-		case 0: // NodeClaim appears / is delivered (again)
+		switch verifrt.Choice("event", 0, 6) {
+		case 6: // the NodeClaim is gone from the API and the deletion is delivered (its Node may still be there)
+			if storeNC != nil {
+				storeNC = nil
+				cluster.DeleteNodeClaim(nc.Name)
+				verifrt.Reach("nodeclaim-deleted")
+			}
+		case 0: // NodeClaim appears / is delivered (again), possibly already being deleted
+			if verifrt.Choice("nodeclaim.deleting", 0, 1) == 1 {
+				nc.Finalizers = []string{v1.TerminationFinalizer}
+				nc.DeletionTimestamp = &metav1.Time{Time: time.Unix(1700000000, 0)}
+			}
 			storeNC = nc
 			cluster.UpdateNodeClaim(nc.DeepCopy())
 			if costedPodTracked {
